@@ -642,13 +642,15 @@ func init() {
 				br, _ := blockstore.NewBlockReader(blockstore.WithBlocksIterator(dmsg.Blocks()))
 				// a receipt that embeds the invocation it answers carries that invocation's whole proof chain and attachments
 				for _, ri := range rinfos {
-					if ri.node == nil {
-						continue
-					}
 					rl, _ := cid.Decode(ri.root)
+					// EVERY receipt of the message — also one that embeds nothing (ran by link, no proofs, no effects) — is
+					// readable from the blocks that travelled
 					rcv, err := receipt.NewReceipt[ipld.Node, ipld.Node](cidlink.Link{Cid: rl}, br, rdm.TypeSystem().TypeByName("Receipt"))
 					if err != nil {
 						direct = append(direct, map[string]any{"message": i, "codec": codec, "what": "receipt not readable after transport: " + err.Error()})
+						continue
+					}
+					if ri.node == nil {
 						continue
 					}
 					if rcv.Ran() == nil {
@@ -823,7 +825,69 @@ func init() {
 		}
 		covDirect, covRuns := covC13(o.seed) // gen_cov.go: block store options, NewInvocation, Extract / Parse refusals, wrapped receipts
 		direct = append(direct, covDirect...)
-		return writeJSON(o.out, "stats.json", map[string]any{"delegations": ndel, "messages": nmsg, "direct_violations": direct, "cov_direct_runs": covRuns,
+		// ---- LARGE messages (an invocation with one 5 MiB attachment; with six 1 MiB attachments): whatever a codec writes
+		// it reads back — there is no size at which blocks stop coming back
+		largeMsgs := 0
+		for vi, sizes := range [][]int{{5 << 20}, {1 << 20, 1 << 20, 1 << 20, 1 << 20, 1 << 20, 1 << 20}} {
+			iss := cast.Ed("k0")
+			inv, err := invocation.Invoke(iss.Signer, service.DID, ucan.NewCapability[ucan.CaveatBuilder]("store/add", iss.DID.String(), Cav{}),
+				delegation.WithExpiration(far), delegation.WithNonce(fmt.Sprint("large", vi)))
+			if err != nil {
+				return err
+			}
+			var att []ipld.Block
+			for _, sz := range sizes {
+				data := make([]byte, sz)
+				r.Read(data)
+				b := block.NewBlock(cidlink.Link{Cid: cid.NewCidV1(0x55, mustSum(data))}, data)
+				if err := inv.Attach(b); err != nil {
+					return err
+				}
+				att = append(att, b)
+			}
+			msg, err := message.Build([]invocation.Invocation{inv}, nil)
+			if err != nil {
+				direct = append(direct, map[string]any{"message": "large", "what": "message.Build failed on a large message: " + err.Error()})
+				continue
+			}
+			largeMsgs++
+			for _, codec := range []string{"request", "response"} {
+				var dmsg message.AgentMessage
+				var derr error
+				if codec == "request" {
+					req, _ := request.Encode(msg)
+					dmsg, derr = request.Decode(req)
+				} else {
+					res, _ := response.Encode(msg)
+					var hr transport.HTTPResponse = res
+					dmsg, derr = response.Decode(hr)
+				}
+				label := fmt.Sprintf("large (%d attachment(s) of %d bytes)", len(sizes), sizes[0])
+				if derr != nil {
+					direct = append(direct, map[string]any{"message": label, "codec": codec, "what": "decode failed on a message the codec wrote itself: " + derr.Error()})
+					continue
+				}
+				br, err := blockstore.NewBlockReader(blockstore.WithBlocksIterator(dmsg.Blocks()))
+				if err != nil {
+					direct = append(direct, map[string]any{"message": label, "codec": codec, "what": "blocks of the decoded message cannot be read: " + err.Error()})
+					continue
+				}
+				if len(dmsg.Invocations()) != 1 || dmsg.Invocations()[0].String() != inv.Link().String() {
+					direct = append(direct, map[string]any{"message": label, "codec": codec, "what": "invocation links differ"})
+					continue
+				}
+				if _, ok, _ := br.Get(inv.Link()); !ok {
+					direct = append(direct, map[string]any{"message": label, "codec": codec, "what": "invocation not viewable after transport: root block lost"})
+				}
+				for _, b := range att {
+					if got, ok, _ := br.Get(b.Link()); !ok || !bytes.Equal(got.Bytes(), b.Bytes()) {
+						direct = append(direct, map[string]any{"message": label, "codec": codec, "what": "attached block lost"})
+						break
+					}
+				}
+			}
+		}
+		return writeJSON(o.out, "stats.json", map[string]any{"delegations": ndel, "messages": nmsg, "large_messages": largeMsgs, "direct_violations": direct, "cov_direct_runs": covRuns,
 			"distinct_shapes": len(shapes), "cross_message_history_steps": nhist, "samples": samples,
 			"model_cases": map[string]int{"delegation_block_sequences": len(dcases), "message_block_sequences": len(bcases), "message_root_blocks": len(mcases), "archive_root_blocks": len(acases)}})
 	}
